@@ -9,13 +9,15 @@ Section HW.
   Variable linit : op -> local.
   Variable mstep : op -> local -> state -> local * state.
   Variable fin : op -> local -> option ret.
+  Variable waits : op -> local -> bool.
+  Variable wstep : op -> local -> local.
   Variable s0 : state.
 
-  Notation seq_exec := (seq_exec state op ret local linit mstep fin).
-  Notation seq_legal := (seq_legal state op ret local linit mstep fin).
+  Notation seq_exec := (seq_exec state op ret local linit mstep fin waits wstep).
+  Notation seq_legal := (seq_legal state op ret local linit mstep fin waits wstep).
   Notation aconfig := (aconfig state op ret).
-  Notation astep := (astep state op ret local linit mstep fin).
-  Notation aexec := (aexec state op ret local linit mstep fin s0).
+  Notation astep := (astep state op ret local linit mstep fin waits wstep).
+  Notation aexec := (aexec state op ret local linit mstep fin waits wstep s0).
   Notation hev := (hev op ret).
   Notation ahist := (ahist op ret).
   Notation matching := (matching op ret).
@@ -331,7 +333,7 @@ Section HW.
 
   (* the invariant gives a linearization *)
   Theorem atomic_linearizable : forall atr a, aexec atr a ->
-    linearizable state op ret local linit mstep fin s0 (ahist atr).
+    linearizable state op ret local linit mstep fin waits wstep s0 (ahist atr).
   Proof.
     intros atr a Hex. destruct (atomic_lin_inv atr a Hex) as [S (Hreach & Hnd & Hent & Hsort & Hthr & Hcomp)].
     exists S. unfold linearization. split; [exact Hnd|]. split; [|split; [exact Hcomp|split; [|split]]].
